@@ -74,4 +74,6 @@ def all_units():
         units_sha.register(add)
         import units_cp
         units_cp.register(add)
+        import units_dec
+        units_dec.register(add)
     return list(_units)
